@@ -3,8 +3,9 @@ import Aiorpcx.C07.Model
 import Aiorpcx.C07.Sha256
 /-! Line-protocol driver for the C07 model.  The checksum parameter is instantiated with the
     real `double_sha256(p)[:4]` (`Sha256.lean`).
-    in : `recv  <magic> <max_payload> <max_block> <chunk> ...`  (hex, `-` = empty)
-         `sess  <magic> <max_payload> <max_block> <chunk> ...`
+    in : `recv  <magic> <max_payload> <max_block> <sizeFirst 0|1> <chunk> ...`  (hex, `-` = empty)
+         `sess  <magic> <max_payload> <max_block> <sizeFirst 0|1> <g> <chunk> ...`
+         (`g`: further magic/size errors processed before the loss is reported, see `sessRunG`)
          `frame <magic> <command> <payload>`
          `ck    <payload>`
     out: recv : `M<cmd>:<payload>` / `Emagic` / `Esize` / `Ecksum` tokens (`.` when none)
@@ -22,28 +23,28 @@ def showOut : Out → String
 def showOuts (outs : List Out) : String :=
   if outs.isEmpty then "." else String.intercalate " " (outs.map showOut)
 
-def parseCfg (magic mp mb : String) : Option Cfg :=
-  match Hex.parseBytes magic, mp.toNat?, mb.toNat? with
-  | some m, some a, some b => some ⟨m, a, b⟩
-  | _, _, _ => none
+def parseCfg (magic mp mb sf : String) : Option Cfg :=
+  match Hex.parseBytes magic, mp.toNat?, mb.toNat?, sf.toNat? with
+  | some m, some a, some b, some f => if f ≤ 1 then some ⟨m, a, b, f == 1⟩ else none
+  | _, _, _, _ => none
 
 def handle (line : String) : String :=
   match (line.splitOn " ").filter (· ≠ "") with
-  | "recv" :: magic :: mp :: mb :: chunks =>
-    match parseCfg magic mp mb, chunks.mapM Hex.parseBytes with
+  | "recv" :: magic :: mp :: mb :: sf :: chunks =>
+    match parseCfg magic mp mb sf, chunks.mapM Hex.parseBytes with
     | some cfg, some cs => showOuts (run cfg Sha256.checksum BQ.empty cs)
     | _, _ => "bad-op"
-  | "sess" :: magic :: mp :: mb :: chunks =>
-    match parseCfg magic mp mb, chunks.mapM Hex.parseBytes with
-    | some cfg, some cs =>
-        let s := sessRun (run cfg Sha256.checksum BQ.empty cs) Sess.init
+  | "sess" :: magic :: mp :: mb :: sf :: g :: chunks =>
+    match parseCfg magic mp mb sf, g.toNat?, chunks.mapM Hex.parseBytes with
+    | some cfg, some g, some cs =>
+        let s := sessRunG g (run cfg Sha256.checksum BQ.empty cs) Sess.init
         s!"errors={s.errors} closed={if s.closed then 1 else 0} " ++
           showOuts (s.delivered.map fun m => Out.msg m.1 m.2)
-    | _, _ => "bad-op"
+    | _, _, _ => "bad-op"
   | ["frame", magic, cmd, payload] =>
     match Hex.parseBytes magic, Hex.parseBytes cmd, Hex.parseBytes payload with
     | some m, some c, some p =>
-        match frame ⟨m, 0, 0⟩ Sha256.checksum c p with
+        match frame ⟨m, 0, 0, false⟩ Sha256.checksum c p with
         | .ok b => "ok " ++ Hex.showBytes b
         | .error .valueError => "ValueError"
         | .error .structError => "struct.error"
